@@ -785,6 +785,9 @@ def must_refuse(case):
         if u.lower() not in ("angstrom", "bohr"):
             return "unknown_unit"
     if g is None or len(g) == 0:
+        # zero atoms (a record only with missing_enabled_return='minimal'): a per-atom descriptor of another length is a mismatch all the same
+        if case["entry"] == "FA" and st.get("minimal") and any(kw.get(k) is not None and len(kw[k]) != 0 for k in PER_ATOM):
+            return "length_mismatch"
         return None
     if len(g) % 3 != 0:
         return "geom_not_3n"
@@ -1327,6 +1330,14 @@ def gen_malformed(rng, entry):
         case = gen_valid(rng, entry)
         kw, st, n = case["kw"], case["st"], len(case["_atoms"])
         if n == 0:
+            if entry == "FA" and st.get("minimal"):
+                # no atoms, but a per-atom descriptor that has some
+                k = rng.choice(PER_ATOM)
+                m = rng.randint(1, 3)
+                kw[k] = {"elea": [4] * m, "elez": [2] * m, "elem": ["He"] * m, "mass": [4.00260325] * m, "real": [True] * m, "elbl": ["He"] * m}[k]
+                case["forms"].pop(k, None)
+                case["tag"] = "length_mismatch"
+                return case
             continue
         kind = rng.choice(MALFORMED)
         if kind == "length_mismatch":
